@@ -62,7 +62,7 @@ func histJudgeLast(sc *hist.Scenario, ops []hist.Op, guarded bool) ([]histFindin
 	o, ob := ops[n], obs[n]
 	where := fmt.Sprintf("scenario %s, history [%s]", sc.Name, renderOps(ops[:n+1]))
 	if ob.Timeout {
-		return append(fs, histFinding{"hang", kindOf(o), where + ": the last call did not return within 30s"}), m, obs, false
+		return append(fs, histFinding{"hang", kindOf(o), where + ": the last call did not return within 90s"}), m, obs, false
 	}
 	if ob.Panic != "" {
 		fs = append(fs, histFinding{"panic", panicClass(ob.Panic), where + ": the last call panicked: " + ob.Panic})
@@ -182,9 +182,12 @@ func c05Extra(sc *hist.Scenario, ops []hist.Op, obs []hist.Obs) []histFinding {
 // exploreHist: DFS over all op sequences up to depth; report(findings, ops) for every violation of the last op.
 func exploreHist(r *core.Run, sc *hist.Scenario, alphabet []hist.Op, depth int, guarded bool, st *histStats, report func(f histFinding, ops []hist.Op)) {
 	histScenarios[sc.Name] = sc
+	// after the first call of this scenario that does not return, the scenario is not explored further: every
+	// further history with that call would wait for the watchdog again and leave another goroutine spinning
+	var hung int32
 	var rec func(ops []hist.Op)
 	rec = func(ops []hist.Op) {
-		if r.Expired() {
+		if r.Expired() || atomic.LoadInt32(&hung) != 0 {
 			return
 		}
 		fs, m, obs, cont := histJudgeLast(sc, ops, guarded)
@@ -195,6 +198,11 @@ func exploreHist(r *core.Run, sc *hist.Scenario, alphabet []hist.Op, depth int, 
 		atomic.AddInt64(&st.execs, int64(len(ops)))
 		for _, f := range fs {
 			report(f, ops)
+			if f.clause == "hang" {
+				if atomic.SwapInt32(&hung, 1) == 0 {
+					r.NotExhaustive("scenario " + sc.Name + ": a call did not return; the scenario was not explored further")
+				}
+			}
 		}
 		if !cont || len(ops) >= depth {
 			return
@@ -226,7 +234,16 @@ func exploreHist(r *core.Run, sc *hist.Scenario, alphabet []hist.Op, depth int, 
 	for _, a := range firsts {
 		if depth >= 2 {
 			// second level for better load balancing
-			_, m, _, cont := histJudgeLast(sc, []hist.Op{a}, guarded)
+			if atomic.LoadInt32(&hung) != 0 {
+				break
+			}
+			fs1, m, _, cont := histJudgeLast(sc, []hist.Op{a}, guarded)
+			for _, f := range fs1 {
+				if f.clause == "hang" {
+					atomic.StoreInt32(&hung, 1)
+					report(f, []hist.Op{a})
+				}
+			}
 			if !cont || m == nil {
 				jobs = append(jobs, []hist.Op{a})
 				continue
@@ -243,6 +260,9 @@ func exploreHist(r *core.Run, sc *hist.Scenario, alphabet []hist.Op, depth int, 
 	}
 	core.ParallelFor(len(jobs), func(i int) {
 		j := jobs[i]
+		if atomic.LoadInt32(&hung) != 0 {
+			return
+		}
 		if len(j) == 2 && j[1].Kind == -1 {
 			fs, _, obs, _ := histJudgeLast(sc, j[:1], guarded)
 			if histExtra != nil && len(obs) == 1 {
